@@ -42,6 +42,8 @@ def flat (v : AsrtVerifierGo) : JWTProfileVerifier :=
 end AsrtVerifierGo
 
 instance : Go.HasNil KeySet := ⟨{ kind := .nilSet }⟩
+/-- `NewJWTProfileVerifierKeySet` passes `nil` for the storage: a verifier without one (empty key registry) -/
+instance : Go.HasNil AsrtStorage := ⟨{}⟩
 
 /-- `*oidc.JWTTokenRequest` as the handlers use it after verification -/
 structure AsrtTokenRequest where
@@ -50,6 +52,15 @@ structure AsrtTokenRequest where
   Audience : List String := []
   Scopes : List String := []
   deriving DecidableEq, Repr, Inhabited
+
+namespace AsrtTokenRequest
+/-- the getters of `*oidc.JWTTokenRequest` (Go getter names), so that a consumer that reads the claims through them still has a
+    translation (deep 4) -/
+@[simp] def GetIssuer (r : AsrtTokenRequest) : String := r.Issuer
+@[simp] def GetSubject (r : AsrtTokenRequest) : String := r.Subject
+@[simp] def GetAudience (r : AsrtTokenRequest) : List String := r.Audience
+@[simp] def GetScopes (r : AsrtTokenRequest) : List String := r.Scopes
+end AsrtTokenRequest
 
 /-- `oidc.ClientAssertionParams` -/
 structure AsrtAssertionParams where
@@ -88,6 +99,12 @@ structure AsrtProvider where
   postSupported : Bool := true
   tokenOf : String → Token := fun _ => default
   decoder : AsrtDecoder := {}
+  /-- (deep 4) every consumer obtains the verifier through an INTERFACE method (`JWTAuthorizationGrantExchanger`, `ClientJWTProfile`,
+      `RevokerJWTProfile`: `JWTProfileVerifier(ctx)`).  `none`: the dynamic type is `*op.Provider`, whose getter is regenerated
+      (`GenC14.ProviderJWTProfileVerifier`); `some f`: an OP that embeds the provider and implements the method itself - `f issuer` is
+      the verifier it hands out for a request addressed to `issuer` (any function: any issuer, window, key source and SUBJECT CHECK,
+      e.g. `op.NewJWTProfileVerifier(storage, IssuerFromContext(ctx), time.Hour, time.Second, op.SubjectCheck(check))`) -/
+  customVerifier : Option (String → AsrtVerifierGo) := none
 
 namespace AsrtProvider
 def Storage (p : AsrtProvider) : AsrtStorage := p.storage
@@ -180,6 +197,13 @@ def asrtAuthorizeClientIDSecret (clientID clientSecret : String) (storage : Asrt
   match storage.base.AuthorizeClientIDSecret clientID clientSecret with
   | .ok _ => .ok ()
   | .error _ => .error "ErrInvalidClient"
+
+/-- (deep 4) `exchanger.JWTProfileVerifier(ctx)` - interface dispatch: the provider's own getter (`stock`, regenerated) unless the OP
+    implements the method itself -/
+def asrtJWTProfileVerifier (stock : String → AsrtProvider → AsrtVerifierGo) (reqIssuer : String) (p : AsrtProvider) : AsrtVerifierGo :=
+  match p.customVerifier with
+  | none => stock reqIssuer p
+  | some f => f reqIssuer
 
 /-- a call of the variadic constructor without options -/
 def asrtNoOpts {σ α : Type} (f : σ → String → Int → Int → List AsrtVerifierOption → α) (storage : σ) (issuer : String) (maxAgeIAT offset : Int) : α :=
